@@ -325,7 +325,7 @@ pub fn brief(c: &Case) -> Value {
 }
 
 pub fn run(ctx: &mut Ctx) {
-    ctx.rule = "proptest metamorphic cases: flop biased to 2-3 cards of one suit, 2-4 players with suit-asymmetric ranges (single-suit ranges, explicit combos, card pools, a mirrored second player for ties; stream wide_ranges: a range of 256-700 combos beside a narrow one), a non-identity suit permutation (all 23) and a player permutation; stream order_sensitive_weight_products: three players whose weights are constructed so that the f32 product depends on the multiplication order and straddles a natural threshold (EPSILON, 2^-24, 1e-6, 1e-7, 1e-9, 1e-3, MIN_POSITIVE), checked in all six player orders. Relations: integer tallies wins[player][k-way] and the showdown count are equal after relabelling flop and ranges, and permute with the players; in every showdown flagged winners == winner_len >= 1 (shares of 1/winner_len sum to one pot, rational arithmetic). Non-trivial = some winning-or-losing flush hand lies in a suit the permutation moves AND >= 1 tie AND >= 2 players win something AND the player order changes; distinct by case.".into();
+    ctx.rule = "proptest metamorphic cases: flop biased to 2-3 cards of one suit, 2-4 players with suit-asymmetric ranges (single-suit ranges, explicit combos, card pools, a mirrored second player for ties; stream wide_ranges: a range of 256-700 combos beside a narrow one), a non-identity suit permutation (all 23) and a player permutation; stream order_sensitive_weight_products: three players whose weights are constructed so that the f32 product depends on the multiplication order and straddles a natural threshold (EPSILON, 2^-24, 1e-6, 1e-7, 1e-9, 1e-3, MIN_POSITIVE), checked in all six player orders; stream many_players: 11-16 single-combo players from a card pool, or 2-23 single-combo players that are pairwise disjoint except for exactly one pair of seats, with a permutation that reverses the seats. Relations: integer tallies wins[player][k-way] and the showdown count are equal after relabelling flop and ranges, and permute with the players; in every showdown flagged winners == winner_len >= 1 (shares of 1/winner_len sum to one pot, rational arithmetic). Non-trivial = some winning-or-losing flush hand lies in a suit the permutation moves AND >= 1 tie AND >= 2 players win something AND the player order changes; distinct by case.".into();
     ctx.assumptions = vec!["tallies are integer counts as in the README loop; f32 sums are not compared (3 x 1/3 need not round to 1)".into()];
     let budget = ctx.tier.pick(150_000u128, 1_500_000u128);
     let cases = ctx.tier.pick(1_200, 12_000);
@@ -350,6 +350,27 @@ pub fn run(ctx: &mut Ctx) {
             }
             Ok(last)
         },
+        brief,
+    );
+    // many players: 11-16 single-combo players drawn from a card pool (overlaps between seats far
+    // apart), a player permutation that moves late seats to the front
+    let cases = ctx.tier.pick(300, 6_000);
+    ctx.run_random_brief(
+        StreamCfg::new("many_players", CLASSES, cases).shrink(60),
+        || {
+            (prop_oneof![1 => pool_config(11..=16, 24..=36, 1), 3 => one_overlap_config()], 1usize..24, any::<u64>()).prop_map(|(cfg, si, seed)| {
+                let n = cfg.ranges.len();
+                let mut pi: Vec<usize> = (0..n).rev().collect();
+                let mut x = mix64(seed);
+                for _ in 0..3 {
+                    x = mix64(x);
+                    let (a, b) = ((x % n as u64) as usize, ((x >> 16) % n as u64) as usize);
+                    pi.swap(a, b);
+                }
+                Case { cfg, sigma: PERMS4[si], pi }
+            })
+        },
+        check,
         brief,
     );
     if ctx.tier == Tier::Thorough {
